@@ -13,6 +13,14 @@
 (* p = request path, r0 = 1 iff a signer restored from the store equals the  *)
 (* running one, e = edges <<to, request index, 1 ok | 0 refused | 2 panic>>; *)
 (* to = -1: no post-state (abort), -2: not explored (state cap).             *)
+(* Very deep burial (plans with `around`): the graph holds Bury(k) edges for *)
+(* k around MIN_DEPTH and MAX_CLOSING_DEPTH (K.DX) - the harness mined k     *)
+(* real blocks; Step evaluates them in closed form (BuryK).  The monitors    *)
+(* are the same: C15a fails on the first heartbeat that drops a channel      *)
+(* whose history the reference does not accept, at whatever depth.  The      *)
+(* kept_beyond_DX_* counters say which insufficient situations were kept at  *)
+(* K.DX confirmations and more (vacuity guards of the check).  The channel   *)
+(* field oosh (our_output_swept_height) is conformance-checked like the rest.*)
 (***************************************************************************)
 EXTENDS Lifecycle, Json, IOUtils
 
